@@ -8,6 +8,15 @@ ALL = ['C%02d' % i for i in range(1, 21)]
 
 # id -> (technique, level text, level note, design ref)
 CHECKS = {
+    'C10': (
+        'stateful (rule-based state machine) testing with a fresh-schema oracle after every step',
+        'Hypothesis RuleBasedStateMachines drive one long-lived schema object through random histories of 17 public operations '
+        '(full / abandoned iter_errors, strict failures, lax decoding with several converters, encode, to_objects, lazy runs, path= / '
+        'max_depth=, stop-validation and mode-switching hooks, raising extra validators, component-level calls, copy) over pools of '
+        'valid, invalid and malformed documents for 6 schema sources (xsi:type in identity scopes, wildcards, fixed values, XSD 1.1 '
+        'assertions / alternatives / open content, docgen, corpus); each result must equal a fresh schema\'s result for the same call.',
+        'trusted: a freshly built schema as reference (its own determinism is checked by computing every reference twice)',
+        'DESIGN.md section 3 C10'),
     'C09': (
         'metamorphic testing: rearranged / re-stored schemas must expose the same globals and give the same probe results',
         'Hypothesis-driven docgen schemas rendered as named global components (forward references depend on order) with two '
